@@ -30,3 +30,16 @@ enum Overlong { #[regex(b"\xC0\x80")] Nul }
 
 #[derive(Logos)]
 enum Surrogate { #[regex(b"\xED\xA0\x80")] Sur }
+
+// a &str subpattern that switches Unicode mode off inline: the (?u:..) wrapper around a subpattern does not undo that
+#[derive(Logos)]
+#[logos(subpattern anyb = r"(?s-u:.)")]
+enum StrSubAnyByte { #[token("a")] A }
+
+#[derive(Logos)]
+#[logos(subpattern lead = r"(?-u:\xC3)")]
+enum StrSubLead { #[regex(r"(?&lead)(?-u:\xA9)")] E, #[token("a")] A }
+
+#[derive(Logos)]
+#[logos(subpattern nq = r#"(?-u:[^"])"#)]
+enum StrSubNegByte { #[token("a")] A }
